@@ -39,13 +39,19 @@ def sed_object(name, wav, aps, val, unc, order, flux_unit='mJy', distance_kpc=1.
     s.nu = s.wav.to(u.Hz, equivalencies=u.spectral())
     na = 1 if aps is None else len(aps)
     s.apertures = None if aps is None else np.array(aps, dtype=float) * u.au
+    if flux_unit == 'nufnu':
+        # the same SED held as nu F_nu in erg/cm2/s (the storage of the original model packages); val/unc are in mJy
+        fac = (s.nu.to(u.Hz).value * 1e-26)[np.newaxis, :]
+        s.flux = np.array([[val(a, w) for w in idx] for a in range(na)], dtype=float) * fac * u.erg / u.cm ** 2 / u.s
+        s.error = np.array([[unc(a, w) for w in idx] for a in range(na)], dtype=float) * fac * u.erg / u.cm ** 2 / u.s
+        return s
     unit = u.Unit(flux_unit)
     s.flux = np.array([[val(a, w) for w in idx] for a in range(na)], dtype=float) * unit
     s.error = np.array([[unc(a, w) for w in idx] for a in range(na)], dtype=float) * unit
     return s
 
 
-def write_sed_raw(path, name, wav, aps, val, unc, order, legacy_units=True):
+def write_sed_raw(path, name, wav, aps, val, unc, order, legacy_units=True, flux_unit='mJy'):
     """SED file written directly with astropy.io.fits following docs/creating_model_packages.rst
     (independent of SED.write), spectral axis stored in the given order"""
     from astropy.io import fits
@@ -71,8 +77,13 @@ def write_sed_raw(path, name, wav, aps, val, unc, order, legacy_units=True):
     hdu2 = fits.BinTableHDU.from_columns([fits.Column(name='APERTURE', format='1D', array=a, unit='cm' if aps is None else 'AU')], name='APERTURES')
     fl = np.array([[val(ai, wi) for wi in idx] for ai in range(na)], dtype=float)
     er = np.array([[unc(ai, wi) for wi in idx] for ai in range(na)], dtype=float)
-    f1 = fits.Column(name='TOTAL_FLUX', format='%dD' % len(w), array=fl, unit='MJY' if legacy_units else 'mJy')
-    f2 = fits.Column(name='TOTAL_FLUX_ERR', format='%dD' % len(w), array=er, unit='MJY' if legacy_units else 'mJy')
+    ustr = 'MJY' if legacy_units else 'mJy'
+    if flux_unit == 'nufnu':          # nu F_nu in erg/cm2/s, as the original model packages store it
+        fl = fl * (nu * 1e-26)[np.newaxis, :]
+        er = er * (nu * 1e-26)[np.newaxis, :]
+        ustr = 'ergs/cm^2/s' if legacy_units else 'erg cm-2 s-1'
+    f1 = fits.Column(name='TOTAL_FLUX', format='%dD' % len(w), array=fl, unit=ustr)
+    f2 = fits.Column(name='TOTAL_FLUX_ERR', format='%dD' % len(w), array=er, unit=ustr)
     hdu3 = fits.BinTableHDU.from_columns([f1, f2], name='SEDS')
     fits.HDUList([hdu0, hdu1, hdu2, hdu3]).writeto(path)
 
